@@ -1272,8 +1272,37 @@ impl SessionBuilder {
         r.remote_incoming_window_exhausted_buffer@.len() == 0,
         r.link_by_input_handle@ == Map::<InputHandle, LinkRelay<OutputHandle>>::empty() && r.delivery_tag_by_id@ == Map::<(Role, u32), (InputHandle, DeliveryTag)>::empty(),   // [C11.builder.nothing-attached] a new session has no link attached and no delivery registered
         r.local_state == local_state && r.outgoing_channel == outgoing_channel && r.incoming_channel is None,
+        r.handle_max == self.handle_max,       // [C11.builder.handle-max-as-configured] the handle-max the Begin announces (and allocate_link enforces) is the configured one
+//@@ end
+
+//@@ fn file=fe2o3-amqp/src/session/builder.rs impl=`impl Builder` name=into_txn_session
+//@@ param control : TxnCtlTx
+//@@ param outgoing : TxnOutTx
+//@@ param control_link_acceptor : ControlLinkAcceptorS
+//@@ ret TxnSessionS
+//@@ subst `Arc<OnceLock<ConnectionStopReason>>` => `OnceCell<ConnectionStopReason>` rule=R8
+//@@ subst `Arc::new(OnceLock::new())` => `OnceCell::new_empty()` rule=R8
+//@@ subst `TransactionManager::new(outgoing, control_link_acceptor)` => `txn_manager_new(outgoing, control_link_acceptor)` rule=R9
+//@@ subst `TxnSession {` => `TxnSessionS {` rule=R7
+//@@ spec
+    ensures
+        ({ let r = r.session;
+        &&& r.next_outgoing_id == self.next_outgoing_id && r.initial_outgoing_id.0 == self.next_outgoing_id     // [C07.builder.first-transfer-id] the session a transactional listener builds (the variant in force with the `transaction` and `acceptor` features) is configured exactly like the plain one
+        &&& r.incoming_window == self.incoming_window && r.outgoing_window == self.outgoing_window              // [C07.builder.windows-as-configured]
+        &&& r.next_incoming_id == 0 && r.remote_incoming_window == 0 && r.remote_outgoing_window == 0 && r.need_flow_count == 0    // [C07.builder.nothing-assumed-of-the-peer]
+        &&& r.remote_incoming_window_exhausted_buffer@.len() == 0
+        &&& r.link_by_input_handle@ == Map::<InputHandle, LinkRelay<OutputHandle>>::empty() && r.delivery_tag_by_id@ == Map::<(Role, u32), (InputHandle, DeliveryTag)>::empty()   // [C11.builder.nothing-attached]
+        &&& r.local_state == local_state && r.outgoing_channel == outgoing_channel && r.incoming_channel is None
+        &&& r.handle_max == self.handle_max }),      // [C11.builder.handle-max-as-configured]
 //@@ end
 }
+#[verifier::external_body] pub struct TxnCtlTx { _p: u8 }
+#[verifier::external_body] pub struct TxnOutTx { _p: u8 }
+#[verifier::external_body] pub struct ControlLinkAcceptorS { _p: u8 }
+#[verifier::external_body] pub struct TxnMgrS { _p: u8 }
+#[verifier::external_body] pub fn txn_manager_new(o: TxnOutTx, a: ControlLinkAcceptorS) -> (r: TxnMgrS) { unimplemented!() }
+/// transaction::session::TxnSession<Session>
+pub struct TxnSessionS { pub control: TxnCtlTx, pub session: Session, pub txn_manager: TxnMgrS }
 
 //@@ fn file=fe2o3-amqp/src/session/mod.rs name=num_messages_settled_by_disposition
 //@@ subst `last.and_then(|last| last.checked_sub(first)).unwrap_or(0) + 1` => `(match last { Some(last) => match last.checked_sub(first) { Some(d) => d, None => 0 }, None => 0 }) + 1` rule=R19 unless `and_then`
